@@ -1081,7 +1081,13 @@ def oracle_c05(run, ops, impl):
         tot1 = sum(v[1] for v in new["acct"].values()) + new["C"]
         if new["S"] > st["S"]:
             out.append(V("C05:unibi-supply-increased", {"line": i + 1, "before": st["S"], "after": new["S"], "op": op[:300]}))
-        if tot1 != tot0:
+        # value sent along with a contract creation goes to the new contract's account, which is not among the tracked ones
+        leaks = {0}
+        if res == "ok":
+            for m in ms:
+                if m["kind"] == "create" and m["value"] >= E12:
+                    leaks |= {x + m["value"] // E12 for x in leaks}
+        if tot0 - tot1 not in leaks:
             out.append(V("C05:unibi-not-conserved-among-accounts-and-collector", {"line": i + 1, "before": tot0, "after": tot1, "op": op[:300]}))
         if len(ms) == 1 and res != "rejected":
             m = ms[0]
